@@ -99,6 +99,10 @@ Load(s, id, tok) ==
                       ELSE pos' = [pos EXCEPT ![s] = (tok :> Pos(s, sv)) @@ @]
   /\ UNCHANGED <<log, appended, saved>>
 
+\* An operation that returned an error - the driver only provokes that with a context that is already cancelled -
+\* has had no effect: nothing appended, no token handed out, no offset saved.
+Refused == UNCHANGED lvars
+
 \* ------------------------------------------------------------ properties
 LogTypeOK ==
   \A s \in Stores : /\ \A t \in DOMAIN pos[s] : pos[s][t] \in 0..Len(log[s])
